@@ -713,17 +713,17 @@ fn mk_cursor<'a>(a: &'a [u8; U], len: usize) -> std::io::Cursor<&'a [u8]> {
     c.set_position(kani::any());
     c
 }
-// @h props=C09,C13 tier=quick group=buf allow=in.function.bytes::panic_advance must_fail=in.function.bytes::panic_advance note=advance_past_end_&[u8]
+// @h props=C09,C13 tier=quick group=buf allow=@PANIC@ must_fail=@PANIC@ note=advance_past_end_&[u8]
 ooc_advance!(c09_ooc_advance_slice, mk_slice);
-// @h props=C09,C13 tier=quick group=buf allow=(placeholder.message|assertion.failed).*in.function.<bytes::Bytes.as.bytes::Buf>::advance|in.function.bytes::panic_advance must_fail=advance note=advance_past_end_Bytes
+// @h props=C09,C13 tier=quick group=buf allow=@PANIC@ must_fail=@PANIC@ note=advance_past_end_Bytes
 ooc_advance!(c09_ooc_advance_bytes, mk_b);
-// @h props=C09,C13 tier=quick group=buf allow=(placeholder.message|assertion.failed).*in.function.<bytes::BytesMut.as.bytes::Buf>::advance|in.function.bytes::panic_advance must_fail=advance note=advance_past_end_BytesMut
+// @h props=C09,C13 tier=quick group=buf allow=@PANIC@ must_fail=@PANIC@ note=advance_past_end_BytesMut
 ooc_advance!(c09_ooc_advance_bytesmut, mk_m);
 // @h props=C09,C13 tier=quick group=buf allow=SymBuf::advance.past.the.end must_fail=SymBuf::advance.past.the.end note=advance_past_end_Chain
 ooc_advance!(c09_ooc_advance_chain, mk_chain);
 // @h props=C09,C13 tier=quick group=buf allow=SymBuf::advance.past.the.end|assertion.failed:.cnt.<=.self.limit must_fail=advance|limit note=advance_past_end_Take
 ooc_advance!(c09_ooc_advance_take, mk_take);
-// @h props=C09,C13 tier=quick group=buf allow=in.function.bytes::panic_advance must_fail=in.function.bytes::panic_advance note=advance_past_end_Cursor
+// @h props=C09,C13 tier=quick group=buf allow=@PANIC@ must_fail=@PANIC@ note=advance_past_end_Cursor
 #[cfg(feature = "std")]
 ooc_advance!(c09_ooc_advance_cursor, mk_cursor);
 
